@@ -204,6 +204,13 @@ func verifC18Dial() {
 			}
 			vAssert(tEnd == last, "Dial gives up when the last attempt has failed (virtual time)")
 		}
+		// ... and reports every failure (or that there was no address at all)
+		if nt == 0 {
+			vAssert(err.Error() == "no address", "without targets Dial reports that there is no address")
+		} else {
+			j, ok := err.(interface{ Unwrap() []error })
+			vAssert(ok && len(j.Unwrap()) == nt, "the returned error joins the errors of all failed attempts, timed-out ones included")
+		}
 		vReach("all-failed")
 	}
 	close(stopSleeper)
